@@ -1,28 +1,106 @@
 #![cfg(kani)]
-//! C03 / C12: hash_buf == generator fed in one call with the buffer length as the hint.
+//! C03 / C12: hash_buf == "new generator; declare the buffer length; update(buffer); finalize".
+//!
+//! The generator's methods are replaced by a recording model (Kani stubbing): what is decided
+//! is the wiring of the one-shot function for every buffer of up to 6 bytes -- it declares
+//! exactly the buffer length, feeds exactly the buffer in one call and returns what finalize
+//! returns.  That this call sequence yields the pure-CTPH hash is C01 / C03 / C12.
 use super::*;
+use core::sync::atomic::{AtomicU8, AtomicUsize, Ordering};
 
-/// hash_buf(b) is exactly: new(); set_fixed_input_size(len); update(b); finalize().
-/// (That this sequence yields the pure-CTPH digest is what the inductive generator queries
-/// establish; here the wiring of the one-shot function is checked: buffer of symbolic
-/// length <= 6, concrete content -- the wiring does not depend on the content.)
+const Z: AtomicU8 = AtomicU8::new(0);
+static LOG: [AtomicU8; 8] = [Z; 8];
+static LOG_N: AtomicUsize = AtomicUsize::new(0);
+static UPDATES: AtomicUsize = AtomicUsize::new(0);
+static HINT: AtomicUsize = AtomicUsize::new(usize::MAX);
+static HINT_BEFORE_DATA: AtomicUsize = AtomicUsize::new(0);
+
+fn stub_hint(_g: &mut Generator, size: usize) -> Result<(), GeneratorError> {
+    HINT.store(size, Ordering::Relaxed);
+    HINT_BEFORE_DATA.store(if UPDATES.load(Ordering::Relaxed) == 0 { 1 } else { 0 }, Ordering::Relaxed);
+    Ok(())
+}
+
+fn stub_update<'a>(g: &'a mut Generator, buffer: &[u8]) -> &'a mut Generator {
+    UPDATES.store(UPDATES.load(Ordering::Relaxed) + 1, Ordering::Relaxed);
+    let mut i = 0;
+    while i < buffer.len() {
+        let n = LOG_N.load(Ordering::Relaxed);
+        if n < 8 {
+            LOG[n].store(buffer[i], Ordering::Relaxed);
+        }
+        LOG_N.store(n + 1, Ordering::Relaxed);
+        i += 1;
+    }
+    g
+}
+
+fn stub_finalize(_g: &Generator) -> Result<RawFuzzyHash, GeneratorError> {
+    let n = LOG_N.load(Ordering::Relaxed);
+    if HINT.load(Ordering::Relaxed) != n {
+        return Err(GeneratorError::FixedSizeMismatch);
+    }
+    let mut bh = [0u8; 8];
+    let mut i = 0;
+    while i < 8 {
+        if i < n {
+            bh[i] = LOG[i].load(Ordering::Relaxed) & 0x3f;
+        }
+        i += 1;
+    }
+    Ok(RawFuzzyHash::new_from_internals_near_raw(0, &bh[..if n < 8 { n } else { 8 }], &[]))
+}
+
 #[kani::proof]
 #[kani::unwind(66)]
+#[kani::stub(crate::internals::generate::Generator::set_fixed_input_size_in_usize, stub_hint)]
+#[kani::stub(crate::internals::generate::Generator::update, stub_update)]
+#[kani::stub(crate::internals::generate::Generator::finalize, stub_finalize)]
 fn c03_hash_buf_wiring_l6() {
-    let buf: [u8; 6] = [0x61, 0x07, 0xf3, 0x20, 0x99, 0x42];
+    let buf: [u8; 6] = kani::any();
+    let mut i = 0;
+    while i < 6 {
+        kani::assume(buf[i] < 64);
+        i += 1;
+    }
     let n: usize = kani::any();
     kani::assume(n <= 6);
+    LOG_N.store(0, Ordering::Relaxed);
+    UPDATES.store(0, Ordering::Relaxed);
+    HINT.store(usize::MAX, Ordering::Relaxed);
     let r = hash_buf(&buf[..n]);
-    let mut g = Generator::new();
-    assert!(g.set_fixed_input_size(n as u64).is_ok());
-    g.update(&buf[..n]);
-    assert!(g.input_size() == n as u64);
-    let e = g.finalize();
-    assert!(r.is_ok() && e.is_ok());
-    let (a, b) = (r.unwrap(), e.unwrap());
-    assert!(a.full_eq(&b));
-    assert!(a.log_block_size() == 0);
-    assert!(a.block_hash_1_len() == n);
+    assert!(HINT.load(Ordering::Relaxed) == n); // declares exactly the buffer length ...
+    assert!(HINT_BEFORE_DATA.load(Ordering::Relaxed) == 1); // ... before feeding data
+    assert!(LOG_N.load(Ordering::Relaxed) == n && UPDATES.load(Ordering::Relaxed) == 1);
+    match r {
+        Ok(h) => {
+            assert!(h.block_hash_1_len() == n);
+            let mut i = 0;
+            while i < 6 {
+                if i < n {
+                    assert!(h.block_hash_1()[i] == buf[i]);
+                }
+                i += 1;
+            }
+        }
+        Err(_) => assert!(false),
+    }
     kani::cover!(n == 6);
-    kani::cover!(n == 0 && a.block_hash_1_len() == 0);
+    kani::cover!(n == 0);
+}
+
+/// The real functions on the empty buffer and on one concrete byte.
+#[kani::proof]
+#[kani::unwind(66)]
+fn c03_hash_buf_real_tiny() {
+    let e = hash_buf(&[]);
+    assert!(e.is_ok());
+    let e = e.unwrap();
+    assert!(e.block_hash_1_len() == 0 && e.block_hash_2_len() == 0 && e.log_block_size() == 0);
+    let one = hash_buf(&[0x41]);
+    assert!(one.is_ok());
+    let one = one.unwrap();
+    assert!(one.block_hash_1_len() == 1 && one.block_hash_2_len() == 1 && one.log_block_size() == 0);
+    assert!(one.block_hash_1()[0] == one.block_hash_2()[0]);
+    kani::cover!(true);
 }
